@@ -132,6 +132,13 @@ class C20Monitor(Monitor):
                         inst = node.software_manager.software.get(entry["type"])
                         if inst is not None and "fixing_duration" not in (entry.get("options") or {}) and inst.config.fixing_duration != dcfg["service_fix_duration"]:
                             self.bad("declared-default-not-honoured", f"{when}: {where}.service_fix_duration is {dcfg['service_fix_duration']} and {hn}/{entry['type']} does not state fixing_duration, but it was built with {inst.config.fixing_duration}", sig_extra=f"{where}:service_fix_duration", key="service_fix_duration", block=where)
+            for dk, attr in (("folder_scan_duration", "scan_duration"), ("folder_restore_duration", "restore_duration")):
+                if dk in dcfg:
+                    for hn, c in declared.items():
+                        fs = getattr(built[hn], "file_system", None)
+                        for folder in (fs.folders.values() if fs is not None else []):
+                            if getattr(folder, attr) != dcfg[dk]:
+                                self.bad("declared-default-not-honoured", f"{when}: {where}.{dk} is {dcfg[dk]} but folder {hn}/{folder.name} was built with {attr} {getattr(folder, attr)}", sig_extra=f"{where}:{dk}", key=dk, block=where)
             if dcfg:
                 run.probe("c20_defaults_block_compared")
         # links
